@@ -44,3 +44,8 @@ Fixpoint mismatches_from (i : N) (run : sx -> sx) (cases : list (sx * sx)) : lis
       else i :: mismatches_from (N.succ i) run rest
   end.
 Definition mismatches := mismatches_from 0%N.
+
+(* observation conventions shared with the Go kit: (0 fields...) ok, (1 code) error, (2) panic *)
+Definition s_ok (fields : list sx) : sx := SL (SZ 0 :: fields).
+Definition s_err (code : N) : sx := SL [SZ 1; SZ (Z.of_N code)].
+Definition s_panic : sx := SL [SZ 2].
